@@ -9,7 +9,7 @@ KIND_PROP = {
     'panic': 'C08', 'check': 'C08', 'consistency': 'C08', 'not_idempotent': 'C08', 'foreign_slot': 'C08',
     'readd_alloc': 'C09', 'readd_neq': 'C09', 'lookup_none': 'C09', 'lookup_neq': 'C09', 'handle_slots': 'C09', 'ret_slots': 'C09', 'new_handle_slots': 'C09',
     'eq_lost': 'C13', 'slots_grew': 'C13', 'progress_direction': 'C13',
-    'data_wrong': 'C14', 'data_not_fixpoint': 'C14',
+    'data_wrong': 'C14', 'data_not_fixpoint': 'C14', 'analysis_panic': 'C14', 'const_not_propagated': 'C14', 'const_unsound': 'C14', 'analysis_check': 'C14',
     'count_mismatch': 'C10',
     'rw_missing_eq': 'C04', 'probe_missing': 'C04', 'rw_unsound_eq': 'C05', 'unbound_var': 'C05', 'match_not_represented': 'C05', 'match_mutated': 'C05',
     'mm_unbound_var': 'C05', 'mm_equation_fails': 'C05', 'mm_mutated': 'C05',
@@ -38,7 +38,7 @@ def oracle_state(tmpl, pattern, nsteps):
         if op[0] in ('add', 'readd'): addt(O.apply_pattern(tuple_term(op[1]), pattern))
         elif op[0] == 'union': eqs.append((O.apply_pattern(tuple_term(op[1]), pattern), O.apply_pattern(tuple_term(op[2]), pattern)))
         elif op[0] == 'rewrite':
-            C = O.Closure(terms, eqs, n_names(terms, eqs, pattern), spare=tmpl_spare(tmpl))
+            C = _mk_closure(tmpl, terms, eqs, pattern)
             new = []
             for r in op[1]:
                 lhs, rhs = O.apply_pattern(tuple_term(r[2]), pattern), O.apply_pattern(tuple_term(r[3]), pattern)
@@ -57,9 +57,14 @@ def closure_for(tmpl, pattern, nsteps):
     c = _closure_cache.get(key)
     if c is None:
         terms, eqs, _ = oracle_state(tmpl, pattern, nsteps)
-        c = O.Closure(terms, eqs, n_names(terms, eqs, pattern), spare=tmpl_spare(tmpl))
+        c = _mk_closure(tmpl, terms, eqs, pattern)
         _closure_cache[key] = c
     return c
+
+def _mk_closure(tmpl, terms, eqs, pattern):
+    if tmpl.analysis == 'ConstProp':      # the modify hook of constant folding adds (num v) to every class with constant value v: part of the expected equivalence
+        return O.const_closure(terms, eqs, n_names(terms, eqs, pattern), spare=tmpl_spare(tmpl))
+    return O.Closure(terms, eqs, n_names(terms, eqs, pattern), spare=tmpl_spare(tmpl))
 
 def n_names(terms, eqs, pattern):
     m = max(pattern) if pattern else -1
@@ -237,13 +242,14 @@ def judge_record(tmpl, rec):
                     if ra.get(kk) is not None and sorted(ra[kk]) != want: out.append(('ret_slots', k, [kk, ra[kk], want]))
         # analysis data
         if 'data' in next(iter(st['classes'].values()), {}):
-            want_all = O.min_costs(C, 'AstSize' if tmpl.analysis == 'MinSize' else 'Depth')
+            want_all = C.constval if tmpl.analysis == 'ConstProp' else O.min_costs(C, 'AstSize' if tmpl.analysis == 'MinSize' else 'Depth')
             for i in range(n):
                 if not known[i]: continue
                 cl = st['classes'].get(str(st['canon'][i]['id']), {})
                 d = cl.get('data'); want = want_all.get(C.cls(hts[i]))
+                if d == 'none': d = None
                 if d != want: out.append(('data_wrong', k, [i, d, want]))
-                if cl.get('data_fix') is not None and cl.get('data_fix') != d: out.append(('data_not_fixpoint', k, [i, d, cl.get('data_fix')]))
+                if cl.get('data_fix') is not None and (None if cl.get('data_fix') == 'none' else cl.get('data_fix')) != d: out.append(('data_not_fixpoint', k, [i, d, cl.get('data_fix')]))
         # monotonicity against the previous step
         if prev is not None:
             pn = len(prev['canon'])
@@ -259,6 +265,14 @@ def judge_record(tmpl, rec):
         failing = tmpl.ops[len(steps) - 1] if 0 < len(steps) <= len(tmpl.ops) else None
         if failing is not None and failing[0] == 'extract': out.append(('extract_panic', len(steps), (p['msg'] if isinstance(p, dict) else p)))
         out.append(('panic', len(steps), (p['msg'] if isinstance(p, dict) else p)))
+    if tmpl.analysis != '()':
+        # with an analysis attached the history is C14's: a panic, a failed consistency check, and (for constant folding, whose modify hook changes
+        # the equivalence itself) every equality the folded constants imply or forbid
+        remap = {'panic': 'analysis_panic', 'check': 'analysis_check', 'consistency': 'analysis_check'}
+        if tmpl.analysis == 'ConstProp':
+            remap.update({'missing_eq': 'const_not_propagated', 'class_split': 'const_not_propagated', 'probe_missing': 'const_not_propagated', 'slot_kept': 'const_not_propagated',
+                          'unsound_eq': 'const_unsound', 'class_merged': 'const_unsound', 'slot_dropped': 'const_unsound'})
+        out = out + [(remap[k], s_, d) for k, s_, d in out if k in remap]
     return out
 
 def progress_ok(a, b):
